@@ -9,7 +9,7 @@ from common import Cvec, R, fl
 
 from common import hc_pre_build as pre_build  # noqa: E402,F401  (C09C18 builds on the generated run() programs)
 
-LEAN_MODULES = ["PyomaVerif.Props.C18", "PyomaVerif.Mutants.C18", "PyomaVerif.Props.C09C18", "PyomaVerif.Props.C18Contracts"]
+LEAN_MODULES = ["PyomaVerif.Props.C18", "PyomaVerif.Mutants.C18", "PyomaVerif.Props.C09C18", "PyomaVerif.Props.C18Contracts", "PyomaVerif.Props.C18MacLink"]
 THEOREMS = [
     # composition C09 o C18: the kept poles satisfy the criteria for the library's own MPC/MPD definitions
     "PV.C09C18.kept_iff_of_check",
@@ -73,6 +73,11 @@ THEOREMS = [
     "PV.C18.C18_mpd_some",
     "PV.C18.C18_mpd_none_iff",
     "PV.C18.C18_mpd_finite",
+    # the three models of gen.MAC are one function (Props/C18MacLink.lean)
+    "PV.C18.C18_scMac_eq_macEntry",
+    "PV.C18.C18_scMac_eq_mac",
+    "PV.C18.C18_efddMac_eq_macEntry",
+    "PV.C18.C18_efddMac_getD",
     "PV.Mutants.C18.mpcOld_constant_nan",
     "PV.Mutants.C18.mpdOld_zero_component_nan",
     "PV.Mutants.C18.arccosOld_above_one_nan",
